@@ -971,6 +971,16 @@ func origins(v ssa.Value) []ssa.Value {
 			}
 			out = append(out, x) // slice produced by a call: the call is the origin
 		case *ssa.MakeSlice, *ssa.Const:
+		case *ssa.Alloc: // array literal ranged in place
+			for _, r := range *x.Referrers() {
+				if ia, ok := r.(*ssa.IndexAddr); ok {
+					for _, rr := range *ia.Referrers() {
+						if st, ok := rr.(*ssa.Store); ok && st.Addr == ssa.Value(ia) {
+							walk(st.Val)
+						}
+					}
+				}
+			}
 		case *ssa.UnOp:
 			if x.Op == token.MUL {
 				if _, ok := x.X.(*ssa.Alloc); ok {
